@@ -22,6 +22,7 @@ type VerifHalfState struct {
 	Pages    int       // half.pages as accounted by the assembler
 	Queued   int       // pages actually linked in the out-of-order list
 	Saved    int       // pages actually linked in the saved list
+	HeadSeen time.Time // timestamp of the first (lowest sequence) queued page, i.e. the data waited on next (zero if none)
 	Oldest   time.Time // oldest 'seen' of a queued page (zero if none)
 	Closed   bool
 	LastSeen time.Time
@@ -34,6 +35,9 @@ func (p *StreamPool) VerifHalves() []VerifHalfState {
 		c.mu.Lock()
 		for _, h := range []*halfconnection{&c.c2s, &c.s2c} {
 			st := VerifHalfState{Pages: h.pages, Closed: h.closed, LastSeen: h.lastSeen}
+			if h.first != nil {
+				st.HeadSeen = h.first.seen
+			}
 			for pg := h.first; pg != nil; pg = pg.next {
 				st.Queued++
 				if st.Oldest.IsZero() || pg.seen.Before(st.Oldest) {
